@@ -340,11 +340,11 @@ class Gen:
         if cls in ("dict0", "dict1", "dict2"):
             return [{"m": "Dict", "k": K, "f": self.sub_fields(kname, int(cls[-1]))}], need
         if cls in ("obj0", "obj2"):
-            return [{"m": "Object", "k": K, "f": self.sub_fields(kname, int(cls[-1])), "cus": r.random() < 0.3}], need
+            return [{"m": "Object", "k": K, "f": self.sub_fields(kname, int(cls[-1])), "cus": r.random() < 0.3, "tnil": r.random() < 0.2}], need
         if cls == "objnil":
             return [{"m": "Object", "k": K, "nil": True}], need
         if cls in ("embed0", "embed1", "embed2"):
-            return [{"m": "EmbedObject", "f": self.sub_fields(kname, int(cls[-1])), "cus": r.random() < 0.3}], need
+            return [{"m": "EmbedObject", "f": self.sub_fields(kname, int(cls[-1])), "cus": r.random() < 0.3, "tnil": r.random() < 0.2}], need
         if cls == "embednil":
             return [{"m": "EmbedObject", "nil": True}], need
         if cls in ("arr0", "arr2", "arrobj"):
@@ -380,7 +380,12 @@ class Gen:
             need = "nil" if cls.endswith("Nil") else "string"
             return [{"m": "Stack"}, {"m": "Fields", "map": r.random() < 0.5, "kv": [{"k": K, "v": {"t": "error", "s": b64(self.bytes_())}}]}], need
         if cls == "fields2":
-            return [{"m": "Fields", "map": r.random() < 0.5, "kv": [{"k": b64(kname + "a"), "v": self.fields_value(kname + "a")}, {"k": b64(kname + "b"), "v": self.fields_value(kname + "b")}],
+            first = self.fields_value(kname + "a")
+            if r.random() < 0.3:
+                # a []error value FOLLOWED by another pair in the same list: what comes after an array-valued pair is still written
+                first = {"t": "[]error", "ss": [b64(self.bytes_() or b"e") for _ in range(r.choice([1, 2, 3]))], "nil": False}
+                self.opaque.append(kname + "a")      # one value to the layout model, whatever it contains
+            return [{"m": "Fields", "map": r.random() < 0.5, "kv": [{"k": b64(kname + "a"), "v": first}, {"k": b64(kname + "b"), "v": self.fields_value(kname + "b")}],
                      "nil": False}], need
         if cls == "fieldsobj":
             return [{"m": "Fields", "map": r.random() < 0.5, "kv": [{"k": K, "v": {"t": "obj", "f": self.sub_fields(kname, 1)}}]}], need
